@@ -87,6 +87,10 @@ func (cr *serverConnReader) runInner() error {
 	var rw io.ReadWriter = cr.sc.bc
 
 	if cr.sc.tunnel == TunnelNone {
+		// a peer that connects and then sends nothing (or stalls in the middle
+		// of a HTTP request) must not keep the connection open forever.
+		cr.sc.nconn.SetReadDeadline(time.Now().Add(cr.sc.s.IdleTimeout))
+
 		var err error
 		rw, err = cr.handleTunneling(rw)
 		if err != nil {
